@@ -74,7 +74,8 @@ BOUNDS = {
                  'base_graph_insertion_orders': 'reversed + 1 seeded shuffle'},
 }
 EXHAUSTIVE = {'quick': False, 'thorough': False}
-RULE = ('single: one string per case, all clauses (a)-(f); non-trivial when the fine graph has >= 2 coarse nodes owning atoms and the case '
+RULE = ('single: one string per case, all clauses (a)-(g) (inputs with shared atoms: the numbering clause for shared atoms instead of the '
+        'block clause); non-trivial when the fine graph has >= 2 coarse nodes owning atoms and the case '
         'exercised at least one permutation or a second constructor; hashseed: batches of 25 strings x 3 interpreter hash seeds, non-trivial '
         'always; distinct = distinct string / distinct batch')
 ASSUMPTIONS = ['vf.util.canonical_dump captures every node / edge attribute of a graph (nodes in iteration order)',
